@@ -22,8 +22,14 @@ def main():
                 ids.append(json.loads(line)['id'])
     checks = []
     na = []
+    with open(os.path.join(HERE, 'registered.txt')) as f:
+        registered = set(f.read().split())
     for pid in ids:
         path = os.path.join(HERE, 'props', pid.lower() + '.py')
+        if pid not in registered:
+            na.append(dict(property_id=pid, reason='check still being built/reviewed in this round and not yet registered '
+                                                   '(the technique applies; see DESIGN.md section 2)'))
+            continue
         if not os.path.exists(path):
             na.append(dict(property_id=pid, reason='check not built yet in this round (technique applies; see DESIGN.md section 2)'))
             continue
